@@ -125,8 +125,11 @@ func (e *engine) evalCases(cases []Case, model []string) {
 		var answers []string
 		if r != nil {
 			for k, q := range c.Requests {
-				impl, pan := askImpl(r, q)
+				impl, route, pan := askImpl(r, q)
 				answers = append(answers, impl)
+				if route != "" {
+					e.rep.Count("matched-route-reported")
+				}
 				e.rep.Count("answer:" + strings.SplitN(strings.SplitN(impl, " ", 2)[0], ":", 2)[0])
 				if impl != "panic" && impl != c.defaultOutcome(q.Net) {
 					nontrivial = true
@@ -140,7 +143,7 @@ func (e *engine) evalCases(cases []Case, model []string) {
 					one.Requests = []ReqSpec{q}
 					e.rep.Fail(common.OracleFailure{Engine: "router", Key: key, Case: one,
 						Detail: fmt.Sprintf("request %s panics the router: %v", q.line(), pan)})
-				} else if key, detail := c.judge(q, impl); key != "" {
+				} else if key, detail := c.judge(q, impl, route); key != "" {
 					one := *c
 					one.Requests = []ReqSpec{q}
 					e.rep.Fail(common.OracleFailure{Engine: "router", Key: key, Case: one, Detail: detail})
@@ -240,7 +243,7 @@ func (e *engine) probeExcluded() {
 	base.Routes = []RouteSpec{{Name: "by-server", Client: "c1", FromServers: []string{"s1"}}}
 	if r, res, _ := buildImpl(base, e.poolDir); r != nil {
 		q := ReqSpec{Net: "tcp", Server: 2, User: "u", Src: "10.0.0.1", SrcPort: 1, DstIP: "1.2.3.4", DstPort: 80}
-		out, pan := askImpl(r, q)
+		out, _, pan := askImpl(r, q)
 		e.rep.Note("excluded input: ServerIndex 2 with 2 servers and a fromServers route -> %s (%v)", out, pan)
 	} else {
 		e.rep.Note("excluded input probe: load failed: %s", res)
@@ -249,7 +252,7 @@ func (e *engine) probeExcluded() {
 	if r, _, _ := buildImpl(base, e.poolDir); r != nil {
 		var out string
 		pan := common.Safely(func() {
-			_, err := r.GetTCPClient(context.Background(), router.RequestInfo{SourceAddrPort: netip.MustParseAddrPort("10.0.0.1:1")})
+			_, err := r.r.GetTCPClient(context.Background(), router.RequestInfo{SourceAddrPort: netip.MustParseAddrPort("10.0.0.1:1")})
 			out = fmt.Sprint(err)
 		})
 		e.rep.Note("excluded input: zero-value TargetAddr with a toDomains route -> %s (%v)", out, pan)
